@@ -24,6 +24,8 @@ inductive Event where
   | characters (data : String)
   | comment (data : String)
   | pi (target data : String)
+  | attribute (name : QName) (value : String)
+  | namespace (pfx uri : String)
 deriving DecidableEq, Repr, Inhabited
 
 mutual
@@ -40,9 +42,15 @@ def copyKidsEvents (sp : StripFn) (pn : Option Tag) : List Node → List Event
     (if k.stripped sp pn then [] else copyEvents sp k) ++ copyKidsEvents sp pn ks
 end
 
+/-- one member of the copied node-set: a subtree, or an attribute (added to the pending element) -/
+def copyX (sp : StripFn) : XNode → List Event
+  | .node l => copyEvents sp l.focus
+  | .attr _ false _ q v => [.attribute q v]
+  | .attr _ true _ q v => [.namespace q.loc v]
+
 /-- `xsl:copy-of select="e"` for a node-set value: the members in document order -/
 def copyOf (sp : StripFn) : Option Value → Option (List Event)
-  | some (.ns l) => some (l.flatMap fun x => copyEvents sp x.focus)
+  | some (.ns l) => some (l.flatMap (copyX sp))
   | some v => some [.characters (v.toStr sp)]
   | none => none
 
@@ -53,36 +61,63 @@ of a parsed source it is the location with no frame above it) -/
 def Loc.isDocument (l : Loc) : Bool := l.path.isEmpty
 
 /-- `getMatchScore != eMatchScoreNone` for a one-step pattern (`a`, `text()`, `node()` …): the strip-aware node
-test; the document node matches no such pattern -/
-def patMatches (sp : StripFn) (t : Test) (l : Loc) : Bool := !l.isDocument && t.accepts sp l
+test; the document node matches no such pattern.  (`patMatches` below is the same for any `Pat`.) -/
+def testMatches (sp : StripFn) (t : Test) (l : Loc) : Bool := !l.isDocument && t.accepts sp l
+
+/-- A match pattern as far as `xsl:key` and `xsl:number` need it: which nodes it matches under a strip function.
+The two laws are what every XSLT pattern satisfies in the library — the document node matches no pattern that is
+not `/` (not used for count/from/key here), and a pattern's last step is a node test, so it never matches a stripped
+text node and otherwise sees the tree as if stripped (for patterns with predicates or several steps this is
+`pattern_simulation`).  `testPat` (one node test) and `exprPat` (any expression of the fragment read as a pattern)
+are the instances, built in `XsltProofs.lean`. -/
+structure Pat where
+  m : StripFn → Loc → Bool
+  doc : ∀ sp x, Loc.isDocument x = true → m sp x = false
+  strip : ∀ sp x, m sp x = (!Loc.stripped sp x && m noStrip (Loc.strip sp x))
+
+def patMatches (sp : StripFn) (p : Pat) (l : Loc) : Bool := p.m sp l
 
 /-! ### xsl:for-each / xsl:apply-templates select=…, xsl:sort -/
 
-def ctxList (n : Nat) : List Loc → Nat → List Ctx
+def ctxList (n : Nat) (vars : List Value) : List XNode → Nat → List Ctx
   | [], _ => []
-  | x :: xs, i => ⟨x, i, n⟩ :: ctxList n xs (i + 1)
+  | x :: xs, i => ⟨x, i, n, vars⟩ :: ctxList n vars xs (i + 1)
 
 /-- the contexts (node, `position()`, `last()`) in which `xsl:for-each select="e"` instantiates its body and
 `xsl:apply-templates select="e"` the chosen templates (before any `xsl:sort`) -/
-def contextsOf : Option Value → Option (List Ctx)
-  | some (.ns l) => some (ctxList l.length l 1)
+def contextsOf (vars : List Value) : Option Value → Option (List Ctx)
+  | some (.ns l) => some (ctxList l.length vars l 1)
   | _ => none
 
 /-- the `xsl:sort select="key"` keys (data-type text) of the selected nodes, in selection order; a stable sort
 by these keys is what `NodeSorter` applies -/
 def sortKeys (sp : StripFn) (sel key : Expr) (c : Ctx) : Option (List (Option String)) :=
-  (contextsOf (sel.eval sp c)).map fun cs => cs.map fun cx => (key.eval sp cx).map (Value.toStr sp)
+  (contextsOf c.vars (sel.eval sp c)).map fun cs => cs.map fun cx => (key.eval sp cx).map (Value.toStr sp)
+
+/-! ### match patterns with predicates (and multi-step patterns) as expressions -/
+
+/-- membership by node identity (the document-order index) -/
+def memById (x : XNode) (l : List XNode) : Bool := l.any fun y => y.id == x.id
+
+/-- A pattern matches `x` iff `x` is selected by the pattern read as an expression from some ancestor-or-self
+(XSLT §5.2; that the library's right-to-left matcher computes this is property C09).  `sel` is that expression
+evaluated at the document node — e.g. `//a/node()[2]`, `//text()[last()]`, `//*[not(text())]` — so positional
+predicates see `position()`/`last()` among the siblings the step selects. -/
+def patternSelects (sp : StripFn) (sel : Expr) (root : Loc) (x : XNode) : Option Bool :=
+  match sel.eval sp ⟨.node root, 1, 1, []⟩ with
+  | some (.ns l) => some (memById x l)
+  | _ => none
 
 /-! ### keys -/
 
 structure KeyDecl where
-  matchT : Test          -- one-step match pattern
+  matchT : Pat
   use : Expr
 
 /-- the entries one node contributes -/
 def keyEntriesAt (sp : StripFn) (k : KeyDecl) (n : Loc) : Option (List (String × Loc)) :=
   if patMatches sp k.matchT n then
-    match k.use.eval sp ⟨n, 1, 1⟩ with
+    match k.use.eval sp ⟨.node n, 1, 1, []⟩ with
     | some (.ns l) => some (l.map fun x => (x.strVal sp, n))
     | some v => some [(v.toStr sp, n)]
     | none => none
@@ -100,8 +135,8 @@ def keyTable (sp : StripFn) (k : KeyDecl) (root : Loc) : Option (List (String ×
   mergeEntries (keyEntriesAt sp k) (root :: root.descendants)
 
 /-- `key(name, s)` -/
-def keyLookup (sp : StripFn) (k : KeyDecl) (root : Loc) (s : String) : Option (List Loc) :=
-  (keyTable sp k root).map fun t => docOrder ((t.filter fun e => e.1 == s).map (·.2))
+def keyLookup (sp : StripFn) (k : KeyDecl) (root : Loc) (s : String) : Option (List XNode) :=
+  (keyTable sp k root).map fun t => docOrder ((t.filter fun e => e.1 == s).map fun e => .node e.2)
 
 /-! ### xsl:number level="any" -/
 
@@ -117,7 +152,7 @@ def deepestLast : Nat → Loc → Loc
     | some c => deepestLast f c
     | none => l
 
-def fromMatches (sp : StripFn) (fromT : Option Test) (l : Loc) : Bool :=
+def fromMatches (sp : StripFn) (fromT : Option Pat) (l : Loc) : Bool :=
   match fromT with
   | some f => patMatches sp f l
   | none => false
@@ -131,7 +166,7 @@ def stepBack (fuel : Nat) (pos : Loc) : Option Loc :=
 
 /-- `ElemNumber::findPrecedingOrAncestorOrSelf`: the `from` pattern is not tested on the context node itself
 (`thePos != context`), on every other node visited it ends the search -/
-def findTargetAny (sp : StripFn) (countT : Test) (fromT : Option Test) : Nat → Bool → Loc → Option Loc
+def findTargetAny (sp : StripFn) (countT : Pat) (fromT : Option Pat) : Nat → Bool → Loc → Option Loc
   | 0, _, _ => none
   | fuel + 1, isContext, pos =>
     if !isContext && fromMatches sp fromT pos then none
@@ -144,7 +179,7 @@ def findTargetAny (sp : StripFn) (countT : Test) (fromT : Option Test) : Nat →
 /-- `ElemNumber::getPreviousNode`, `eAny == m_level` branch: one step back in document order (last descendant
 of the previous sibling, else the parent); every node walked over is tested against `from` ("return 0 from
 function"), then against `count` -/
-def getPreviousNodeAny (sp : StripFn) (countT : Test) (fromT : Option Test) : Nat → Loc → Option Loc
+def getPreviousNodeAny (sp : StripFn) (countT : Pat) (fromT : Option Pat) : Nat → Loc → Option Loc
   | 0, _ => none
   | fuel + 1, pos =>
     match stepBack fuel pos with
@@ -155,14 +190,14 @@ def getPreviousNodeAny (sp : StripFn) (countT : Test) (fromT : Option Test) : Na
       else getPreviousNodeAny sp countT fromT fuel next
 
 /-- `CountersTable::countNode` without its cache: the length of the chain target, previous, previous, … -/
-def chainLength (sp : StripFn) (countT : Test) (fromT : Option Test) : Nat → Loc → Nat
+def chainLength (sp : StripFn) (countT : Pat) (fromT : Option Pat) : Nat → Loc → Nat
   | 0, _ => 0
   | fuel + 1, t =>
     match getPreviousNodeAny sp countT fromT fuel t with
     | none => 1
     | some p => 1 + chainLength sp countT fromT fuel p
 
-def numberAny (sp : StripFn) (countT : Test) (fromT : Option Test) (fuel : Nat) (l : Loc) : Nat :=
+def numberAny (sp : StripFn) (countT : Pat) (fromT : Option Pat) (fuel : Nat) (l : Loc) : Nat :=
   match findTargetAny sp countT fromT fuel true l with
   | none => 0
   | some t => chainLength sp countT fromT fuel t
@@ -183,7 +218,7 @@ def Loc.before (l : Loc) : List Loc := beforeAux l.focus l.path
 /-- XSLT §7.7 level="any": the nodes that match the count pattern among the current node and the nodes before it
 in document order — "starting after the first node before the current node that matches the from pattern" when
 there is one. -/
-def numberAnySpec (sp : StripFn) (countT : Test) (fromT : Option Test) (l : Loc) : Nat :=
+def numberAnySpec (sp : StripFn) (countT : Pat) (fromT : Option Pat) (l : Loc) : Nat :=
   ((l :: l.before.takeWhile fun x => !fromMatches sp fromT x).filter (patMatches sp countT)).length
 
 /-! ### xsl:number level="single" / level="multiple" -/
@@ -191,7 +226,7 @@ def numberAnySpec (sp : StripFn) (countT : Test) (fromT : Option Test) (l : Loc)
 /-- `ElemNumber::getMatchingAncestors(node, stopAtFirstFound)` over the node and its ancestors (nearest first):
 an ancestor matching `from` ends the walk (the context node itself is not tested, `node != theContextNode`); a
 node matching `count` is collected, and with `stopAtFirstFound` (level single) the walk ends there. -/
-def matchingAncestorsFrom (sp : StripFn) (countT : Test) (fromT : Option Test) (single : Bool) :
+def matchingAncestorsFrom (sp : StripFn) (countT : Pat) (fromT : Option Pat) (single : Bool) :
     Bool → List Loc → List Loc
   | _, [] => []
   | isContext, n :: rest =>
@@ -200,22 +235,22 @@ def matchingAncestorsFrom (sp : StripFn) (countT : Test) (fromT : Option Test) (
       (if single then [n] else n :: matchingAncestorsFrom sp countT fromT single false rest)
     else matchingAncestorsFrom sp countT fromT single false rest
 
-def matchingAncestors (sp : StripFn) (countT : Test) (fromT : Option Test) (single : Bool) (L : List Loc) : List Loc :=
+def matchingAncestors (sp : StripFn) (countT : Pat) (fromT : Option Pat) (single : Bool) (L : List Loc) : List Loc :=
   matchingAncestorsFrom sp countT fromT single true L
 
 /-- `ElemNumber::getPreviousNode`, single/multiple branch, iterated by `CountersTable::countNode`: from the
 target walk `getPreviousSibling()`; every sibling matching `count` is one more member of the chain.  The
 argument is the list of preceding siblings, nearest first. -/
-def siblingChain (sp : StripFn) (countT : Test) : List Loc → Nat
+def siblingChain (sp : StripFn) (countT : Pat) : List Loc → Nat
   | [] => 0
   | x :: xs => if patMatches sp countT x then 1 + siblingChain sp countT xs else siblingChain sp countT xs
 
 /-- the number of one collected ancestor: itself plus the matching preceding siblings -/
-def numberOfTarget (sp : StripFn) (countT : Test) (t : Loc) : Nat :=
+def numberOfTarget (sp : StripFn) (countT : Pat) (t : Loc) : Nat :=
   1 + siblingChain sp countT t.precedingSiblings
 
 /-- the number list `getCountString` formats (outermost first) for level single (`single = true`) or multiple -/
-def numberList (sp : StripFn) (countT : Test) (fromT : Option Test) (single : Bool) (l : Loc) : List Nat :=
+def numberList (sp : StripFn) (countT : Pat) (fromT : Option Pat) (single : Bool) (l : Loc) : List Nat :=
   ((matchingAncestors sp countT fromT single (l :: l.ancestors)).reverse).map (numberOfTarget sp countT)
 
 end XalanModel.C13
